@@ -157,8 +157,20 @@ let extract_line line = match al (sx_parse line) with
   | [A c; d] -> show (extract_u (c <> 0) (to_doc d))
   | _ -> "ERR"
 
+(* line: "a b" -> class bits of every code point in [a,b): 1 space, 2 word, 4 upper, 8 lower, 16 ascii-space, 32 ascii-word *)
+let chars_line line = match String.split_on_char ' ' line with
+  | [a; b] ->
+    let a = int_of_string a and b = int_of_string b in
+    let buf = Buffer.create (2 * (b - a)) in
+    for c = a to b - 1 do
+      let n = n_of_int c in
+      let v = (if isspace_u n then 1 else 0) + (if isword_u n then 2 else 0) + (if isupper_u n then 4 else 0) + (if islower_u n then 8 else 0) in
+      Buffer.add_char buf (Char.chr (65 + v))
+    done; Buffer.contents buf
+  | _ -> "ERR"
 let () =
   let f = match Sys.argv.(1) with
+    | "chars" -> chars_line
     | "trim" -> trimu_line | "trim_ascii" -> trim_line | "tokens" -> tokens_line | "spans" -> spans_line | "nspans" -> nspans_line | "normalize" -> norm_line | "review" -> review_line | "edits" -> edits_line | "package" -> package_line | "acceptall" -> acceptall_line | "extract" -> extract_line | "diff" -> diff_line | "markup" -> markup_line
     | m -> failwith ("mode " ^ m) in
   try while true do
